@@ -135,10 +135,10 @@ theorem facts_insert_children (ah h gap top : Int) :
   ⟨rfl, rfl, rfl, rfl, rfl, rfl, rfl, rfl, rfl⟩
 
 /-- `ensureScroll` IS `DynList.ensureScroll`: the guard `cursor > top` evaluated on the state decides
-    between setting the flag and `top = cursor; offset = 0`. -/
+    between setting the flag and `top = cursor; offset = 0; pending = 0` (repair F119g). -/
 theorem facts_ensure_scroll (s : DynList.St) :
     (condsOf ensureScroll .ifS)[0]?.bind (evalB (envOf s)) = some (decide (s.cursor > s.top)) ∧
-    DynList.ensureScroll s = (if s.cursor > s.top then { s with wantsCursor := true } else { s with top := s.cursor, offset := 0 }) := by
+    DynList.ensureScroll s = (if s.cursor > s.top then { s with wantsCursor := true } else { s with top := s.cursor, offset := 0, pending := 0 }) := by
   refine ⟨?_, rfl⟩
   show some (decide ((s.cursor : Int) > (s.top : Int))) = some (decide (s.cursor > s.top))
   congr 1
